@@ -157,7 +157,13 @@ func (p *p2cPicker) buildDoneFunc(c *subConn) func(balancer.DoneInfo) {
 			success = 0
 		}
 		oSuccess := atomic.LoadUint64(&c.success)
-		atomic.StoreUint64(&c.success, uint64(float64(oSuccess)*w+float64(success)*(1-w)))
+		nSuccess := float64(oSuccess)*w + float64(success)*(1-w)
+		if success > 0 {
+			// 成功时向上取整：若一律截断，高频调用下每次成功的加分不足 1 会被舍去，而失败每次至少扣 1 分，
+			// 偶有失败的后端得分只降不升，恢复后也无法回升。
+			nSuccess = math.Ceil(nSuccess)
+		}
+		atomic.StoreUint64(&c.success, uint64(nSuccess))
 
 		stamp := p.stamp.Load()
 		if now-stamp >= logInterval {
